@@ -83,7 +83,7 @@ Init ==
   /\ S = [p \in Procs |-> NilSig]
   /\ L = [p \in Procs |-> LInit]
   /\ token = [p \in Procs |-> FALSE] /\ woken = {} /\ now = 0
-  /\ G = [delivered |-> <<>>, dropped |-> <<>>, created |-> {}, order |-> <<>>, acc |-> <<>>]
+  /\ G = [delivered |-> <<>>, dropped |-> <<>>, created |-> {}, order |-> <<>>, acc |-> <<>>, closed |-> FALSE]
 
 \* =========================================================================
 \* operation start (the public call is entered; no hook yet)
@@ -293,10 +293,11 @@ Lock(p) ==
      /\ LSet(p, b.l)
      /\ S' = IF b.s = <<>> THEN S ELSE [S EXCEPT ![p] = b.s]
      \* close destroys the buffered values under the lock (queue.clear())
-     /\ G' = IF "queue" \in DOMAIN b.c /\ L[p].kind = "close" /\ L[p].csk = "op"
-             THEN [G EXCEPT !.dropped = BumpAll(@, C.queue)]
-             ELSE [G EXCEPT !.order = IF "o" \in DOMAIN b THEN @ \o b.o ELSE @,    \* hand-out order is fixed under the lock
-                            !.acc = IF "a" \in DOMAIN b THEN @ \o b.a ELSE @]      \* and so is the order of acceptance
+     /\ G' = LET g1 == IF "queue" \in DOMAIN b.c /\ L[p].kind = "close" /\ L[p].csk = "op"
+                        THEN [G EXCEPT !.dropped = BumpAll(@, C.queue)]
+                        ELSE [G EXCEPT !.order = IF "o" \in DOMAIN b THEN @ \o b.o ELSE @,    \* hand-out order is fixed under the lock
+                                       !.acc = IF "a" \in DOMAIN b THEN @ \o b.a ELSE @]      \* and so is the order of acceptance
+              IN [g1 EXCEPT !.closed = @ \/ (L[p].kind = "close" /\ L[p].csk = "op" /\ "sc" \in DOMAIN b.c)]
   /\ UNCHANGED <<token, woken, now>>
 
 \* try_acquire_internal fails: the realtime variants give up after one CAS (lib.rs try_*_realtime)
@@ -572,8 +573,10 @@ WaitShape ==
 ListedAreArmed ==
   \A a \in 1..Len(C.wl) : S[C.wl[a]].st \in {"LOCKED", "STARV"}
                           \/ (C.lock # NOPROC /\ L[C.lock].cont = "term")
-\* C10: closed is final
-ClosedShape == (C.sc = 0 /\ C.rc = 0) => (C.lock # NOPROC \/ (C.wl = <<>> /\ C.queue = <<>>))
+\* C10: closed (by a successful close(); ghost G.closed) is final: both counts stay 0, and once the closer has left
+\* its critical section nobody is listed and nothing is buffered. (Both counts can also reach 0 through drops of the
+\* last handles; then buffered messages stay in the queue until the channel is deallocated.)
+ClosedShape == G.closed => (C.sc = 0 /\ C.rc = 0 /\ (C.lock # NOPROC \/ (C.wl = <<>> /\ C.queue = <<>>)))
 \* C11: once one side has no handle left nobody stays listed (the last drop terminates every waiter)
 DisconnectShape == (C.sc = 0 \/ C.rc = 0) => (C.lock # NOPROC \/ C.wl = <<>>)
 \* C07 (design level): a claimer only touches a signal that is still alive and not yet finished by it
